@@ -36,10 +36,10 @@ def _dur_choices(dyadic, rng):
     return rng.choice([0.0, 0.01, 0.02, 0.05, 0.1, 0.25, 0.3, 0.5, 0.7, 1.0, 1.5, 2.0, round(rng.uniform(0, 3), 3)])
 
 
-def gen_config(rng, prop):
+def gen_config(rng, prop, tier="quick"):
     asm = prop == "C13"
     dyadic = rng.random() < 0.55
-    n = rng.choice([1, 2, 2, 3, 3, 3, 4, 4, 5, 6])
+    n = rng.choice([1, 2, 2, 3, 3, 3, 4, 4, 5, 6] if tier != "thorough" else [1, 2, 2, 3, 3, 4, 4, 5, 6, 7, 8])
     p_timed = {"C02": 0.8, "C13": 0.65}.get(prop, 0.5)
     names = [f"s{i}" for i in range(n)]
     states = []
@@ -169,10 +169,10 @@ def generate(seed, prop, tier, index=0):
         from engines import robot
         return robot.generate_integration(seed, prop, tier, index)
     rng = random.Random(seed)
-    cfg = gen_config(rng, prop)
+    cfg = gen_config(rng, prop, tier)
     clock = _VClock(cfg["boot_us"])
     model = _mk_model(cfg, clock)
-    n_iter = rng.choice([6, 10, 16, 24, 40, 60] if tier == "quick" else [6, 12, 24, 40, 80, 110])
+    n_iter = rng.choice([6, 10, 16, 24, 40, 60] if tier == "quick" else [6, 12, 24, 40, 80, 110, 200])
     style = {
         "p_engage": rng.choice([1.0, 1.0, 0.9, 0.7, 0.5, 0.2]),
         "p_burst": rng.choice([0.0, 0.6, 0.9]),
